@@ -393,9 +393,39 @@ impl FileSpec {
                 }
             })
             .collect::<Vec<PathBuf>>();
-        log_files.sort_unstable();
+        log_files.sort_by_cached_key(|path| self.sort_key(path));
         log_files.reverse();
         Ok(log_files)
+    }
+
+    // Files are sorted by their name without suffixes and restart counter, then by the restart counter
+    // (numerically; a file without restart counter comes first), such that the order does not depend
+    // on the suffix or on the number of digits of the restart counter.
+    fn sort_key(&self, path: &Path) -> (String, Option<(usize, String)>, String) {
+        let name = path
+            .file_name()
+            .map(|s| s.to_string_lossy().to_string())
+            .unwrap_or_default();
+        let mut stem = name.strip_suffix(".gz").unwrap_or(&name);
+        if let Some(suffix) = self.o_suffix.as_deref() {
+            stem = stem
+                .strip_suffix(suffix)
+                .and_then(|s| s.strip_suffix('.'))
+                .unwrap_or(stem);
+        }
+        match stem.split_once(".restart-") {
+            Some((main, digits))
+                if !digits.is_empty() && digits.bytes().all(|b| b.is_ascii_digit()) =>
+            {
+                let number = digits.trim_start_matches('0');
+                (
+                    main.to_string(),
+                    Some((number.len(), number.to_string())),
+                    name.clone(),
+                )
+            }
+            _ => (stem.to_string(), None, name.clone()),
+        }
     }
 
     pub(crate) fn filter_files(
